@@ -2,11 +2,11 @@
 # usage: seedbatch.sh <root of seed dirs: root/<ID>/<k>/patch.diff>  [ID ...]
 # verifies every seed and runs all quick checks against it; summary to stdout, details in /tmp/seed_results
 root=$1; shift
-mkdir -p /tmp/seed_results
+RESDIR=${RESDIR:-/tmp/seed_results}; mkdir -p $RESDIR
 ids=${@:-$(ls $root)}
 for id in $ids; do for k in $(ls $root/$id); do
   d=$root/$id/$k; [ -f $d/patch.diff ] || continue
-  out=/tmp/seed_results/${id}_$k.txt
+  out=$RESDIR/${id}_$k.txt
   if [ -z "${FORCE:-}" ] && [ -f $out.verify ]; then v=$(cat $out.verify); else v=$(/verif/tools/seedverify.sh $d 2>&1 | tail -1); echo "$v" > $out.verify; fi
   /verif/tools/seedrun.sh $d/patch.diff all quick > $out 2>&1
   fired=$(grep -o "^VIOLATION property=C[0-9]*" $out | sed 's/VIOLATION property=//' | tr '\n' ',')
